@@ -23,6 +23,10 @@ var c02Workflows = map[string]string{
 	"merge-order.yml": "on: push\njobs:\n  j:\n    runs-on: ubuntu-latest\n    services:\n      s:\n        image: x\n    steps:\n      - run: |\n          echo ${{ (job.services || fromJSON('{\"p\":{\"x\":1},\"q\":{\"x\":\"s\"},\"r\":{\"x\":true}}')).foo.x.y }}\n      - run: |\n          echo ${{ (fromJSON('{\"a\":1,\"b\":\"s\",\"c\":true,\"d\":null}') || job.services).zz.y }}\n",
 	"undefined-many.yml": "on: push\njobs:\n  j:\n    runs-on: ubuntu-latest\n    strategy:\n      matrix:\n        a: [1]\n        b: [1]\n        c: [1]\n        exclude:\n          - x: 1\n            y: 2\n            z: 3\n    steps:\n      - run: echo ${{ nosuchvar }} ${{ nosuchfn() }}\n      - run: echo ${{ github.nosuch }}\n    permissions:\n      zz1: read\n      zz2: write\n",
 	"workflow-call.yml": "on: push\njobs:\n  c1:\n    uses: ./.github/workflows/reusable.yml\n  c2:\n    uses: ./.github/workflows/reusable.yml\n    with:\n      x1: 1\n      x2: 2\n    secrets:\n      y1: a\n      y2: b\n  l1:\n    runs-on: ubuntu-latest\n    steps:\n      - uses: ./.github/actions/local\n      - uses: ./.github/actions/local\n        with:\n          q1: 1\n          q2: 2\n",
+	// inputs / secrets / outputs that refer to each other in their description / default / options: what is in scope
+	// while the declarations are being checked must not depend on the order the map hands them out
+	"dispatch-cross-ref.yml": "on:\n  workflow_dispatch:\n    inputs:\n      alpha:\n        description: a ${{ inputs.bravo }}\n        default: ${{ inputs.charlie }}\n        type: string\n      bravo:\n        description: b ${{ inputs.delta }} ${{ github.event.inputs.alpha }}\n        type: choice\n        options: [\"${{ inputs.echo }}\", x]\n      charlie:\n        default: ${{ inputs.alpha }}\n        type: string\n      delta:\n        description: ${{ inputs.echo }}\n        type: boolean\n      echo:\n        description: ${{ inputs.alpha }} ${{ inputs.bravo }} ${{ inputs.charlie }} ${{ inputs.delta }}\n        type: number\njobs:\n  j:\n    runs-on: ubuntu-latest\n    steps:\n      - run: echo\n",
+	"call-cross-ref.yml": "on:\n  workflow_call:\n    inputs:\n      alpha:\n        type: string\n        default: ${{ inputs.bravo }} ${{ inputs.charlie }}\n      bravo:\n        type: string\n        default: ${{ inputs.alpha }} ${{ inputs.charlie }}\n      charlie:\n        type: string\n        default: ${{ inputs.alpha }} ${{ inputs.bravo }}\n    secrets:\n      s1:\n        description: ${{ secrets.s2 }}\n      s2:\n        description: ${{ secrets.s1 }}\n    outputs:\n      o1:\n        description: ${{ jobs.j.outputs.x }}\n        value: ${{ jobs.j.outputs.x }} ${{ jobs.k.outputs.y }}\n      o2:\n        value: ${{ jobs.k.outputs.y }} ${{ jobs.nojob.outputs.z }}\njobs:\n  j:\n    runs-on: ubuntu-latest\n    outputs:\n      x: a\n    steps:\n      - run: echo\n  k:\n    runs-on: ubuntu-latest\n    outputs:\n      y: b\n    steps:\n      - run: echo\n",
 	// two files that reference the same defective local action / reusable workflow: the callee's own defect must show
 	// up at the same place in every run (the caches are filled by whichever file comes first)
 	"callee-defect-1.yml": "on: push\njobs:\n  j:\n    runs-on: ubuntu-latest\n    steps:\n      - uses: ./.github/actions/bad\n        id: s\n      - uses: ./.github/actions/broken\n  k:\n    uses: ./.github/workflows/badwf.yml\n",
@@ -40,7 +44,7 @@ func runC02(c *ctx, r *Report) error {
 	if !c.quick {
 		reps = 400
 	}
-	r.Rule = fmt.Sprintf("10 workflows built so that every site where the code ranges over a Go map yields two or more diagnostics at one source position or several candidates (surplus format placeholders, missing required inputs of bundled / local actions and of a local reusable workflow incl. secrets, undefined inputs, runner-label conflicts with several conflicting labels, several needs cycles, Merge of object types with ≥ 3 properties, several undefined matrix keys / permission scopes / variables, candidates laid out with increasing line and decreasing column, two files sharing defective local callees), plus eight files of two repositories with different configurations alternating in one call, in a scratch repository with a local action and a local reusable workflow; each file alone and all files in one LintFiles call are linted %d times by fresh linters under GOMAXPROCS ∈ {1,2,4,16}; output bytes (-oneline) and exit status must be identical in every repetition; non-trivial = distinct (file set, GOMAXPROCS) configurations that produce ≥ 2 diagnostics", reps)
+	r.Rule = fmt.Sprintf("12 workflows built so that every site where the code ranges over a Go map yields two or more diagnostics at one source position or several candidates (surplus format placeholders, missing required inputs of bundled / local actions and of a local reusable workflow incl. secrets, undefined inputs, runner-label conflicts with several conflicting labels, several needs cycles, Merge of object types with ≥ 3 properties, several undefined matrix keys / permission scopes / variables, candidates laid out with increasing line and decreasing column, two files sharing defective local callees), plus eight files of two repositories with different configurations alternating in one call, in a scratch repository with a local action and a local reusable workflow; each file alone and all files in one LintFiles call are linted %d times by fresh linters under GOMAXPROCS ∈ {1,2,4,16}; output bytes (-oneline) and exit status must be identical in every repetition; non-trivial = distinct (file set, GOMAXPROCS) configurations that produce ≥ 2 diagnostics", reps)
 	tmp, err := os.MkdirTemp("", "verif-c02-")
 	if err != nil {
 		return err
